@@ -74,6 +74,8 @@ def hostile_cfg(r, seed, observer="inotify"):
     cfg = c01.make_cfg(r, seed)
     cfg.update({"pacing": False, "out_ops": True, "bias": HOSTILE_BIAS, "n_ops": r.randint(10, 40), "final_probes": False, "probe_p": 0.0,
                 "root_probe": True, "delete_root": r.random() < 0.3, "observer": observer, "recursive": r.random() < 0.85})
+    if observer == "inotify" and cfg["recursive"] and not cfg["delete_root"] and r.random() < 0.5:
+        cfg["final_probes"] = True
     if observer == "polling":
         cfg.update({"mode": "plain", "read_size": None, "full": False, "selfloop": r.random() < 0.5})
     return cfg
@@ -99,6 +101,49 @@ def hostile_features(ops):
         if o[0] in ("rename", "move_out"):
             gone.add(o[1])
     return departed, reuse
+
+
+def name_reused_before(ops, rel_dir, root_name):
+    """Was the path of `rel_dir` (or of one of its ancestors), within the last un-drained segment of the history, given up by
+    one directory (renamed / moved away / removed) and taken by another one afterwards?  Then the events of the first
+    directory and the walk that finds the second one race, and inotify events carry names, not identities."""
+    seg, cur = [], []
+    for o in ops:
+        if o[0] == "drain":
+            if cur:
+                seg = cur
+            cur = []
+        else:
+            cur.append(o)
+    if cur:
+        seg = cur
+    full = root_name + ("/" + rel_dir if rel_dir else "")
+    chain = [full]
+    while "/" in chain[-1]:
+        chain.append(chain[-1].rsplit("/", 1)[0])
+    chain = set(chain)
+    vacated = set()
+    for o in seg:
+        k = o[0]
+        if k in ("rename", "move_out") and o[1] in chain:
+            vacated.add(o[1])
+        elif k in ("rmdir", "rmtree", "unlink") and o[1] in chain:
+            vacated.add(o[1])
+        taken = None
+        if k in ("mkdir", "makedirs", "burst", "create"):
+            taken = o[1]
+        elif k in ("rename", "move_in"):
+            taken = o[2]
+        if taken is not None:
+            # makedirs creates the missing ancestors too
+            t = taken
+            while True:
+                if t in vacated:
+                    return True
+                if k != "makedirs" or "/" not in t:
+                    break
+                t = t.rsplit("/", 1)[0]
+    return False
 
 
 def run_hostile(b: Batch, cfg, faults: AddWatchFaults | None = None, fault_plan=None):
@@ -141,6 +186,20 @@ def run_hostile(b: Batch, cfg, faults: AddWatchFaults | None = None, fault_plan=
         b.count("histories_with_ops_on_departed_dirs")
     if reuse:
         b.count("histories_with_name_reuse")
+    if cfg.get("final_probes") and not fired:
+        # "later changes in the tree go unreported": after the (unpaced) history has drained, a file created in each existing
+        # directory of a recursive watch must be reported (the probe oracle of C02, here after hostile histories)
+        b.count("hostile_histories_with_final_probes")
+        for p_, mech, msg, det in list(h.viol):
+            if p_ == "C02" and mech.split(":")[0] in ("probe-unreported",):
+                d_ = (det or {}).get("directory", "")
+                rel_d = d_[len(h.u.root_name) + 1:] if d_.startswith(h.u.root_name + "/") else ""
+                if name_reused_before(h.ops, rel_d, h.u.root_name):
+                    h.viol.append(("C07", "coverage-lost-when-a-name-was-reused-before-its-events-were-read",
+                                   "after the history had drained: " + msg, det))
+                else:
+                    h.viol.append(("C07", "later-changes-unreported", "after the history had drained: " + msg, det))
+                break
     fshist.account(b, h, "C07", dict(cfg, fault_plan=fault_plan), nontrivial=(departed or reuse or fired or cfg.get("delete_root")))
     b.add("modes", cfg.get("observer", "inotify") + ":" + cfg.get("mode", "plain"))
     return h
